@@ -7,6 +7,7 @@
 """
 import copy
 import json
+import os
 
 from vcheck import core, svcgen, svcreal
 
@@ -108,10 +109,25 @@ def is_error(resp):
   return resp.get('k') in ('err', 'mdError')
 
 
+def load_corpus():
+  """corpus/svc/*.json: histories that once exposed a defect; each is run under both early-stopping
+  recycle settings (entries are duplicated so that consecutive indices get both)."""
+  import glob
+  out = []
+  for f in sorted(glob.glob(os.path.join(core.VERIF, 'corpus', 'svc', '*.json'))):
+    try:
+      h = json.load(open(f))['history']
+    except (OSError, ValueError, KeyError):
+      continue
+    out += [h, [dict(r) for r in h]]
+  return out
+
+
 def differential(c, focus, n_hist, backends, cfgs, weights=None, lengths=(4, 22), clients=('w1', 'w2'),
                  judge=True, check_backends_equal=False, fail_rate=0.16):
   """Runs the tie and the property stage.  Property keys are prefixed by what failed."""
   hists = svcgen.matrix()       # directed: every RPC on every trial / study state
+  hists += load_corpus()        # minimised past failures (defects since repaired, seeded changes) run first
   n_hist += len(hists)
   for i in range(n_hist - len(hists)):
     # every third history: two owners whose studies share the display name (cross-owner isolation),
